@@ -355,3 +355,221 @@ pub fn fd_program(rng: &mut Rng, cfg: &FdCfg) -> Program {
         Program::new(qvars, vec![G::Fresh(hidden, body)])
     }
 }
+
+// ---------------------------------------------------------------------------------------------
+// Search programs (finite trees): nested disjunctions, multi-answer conjunctions, library and
+// generated recursive relations, pattern matching. All disjunctions are `Cond` (mode-inferred),
+// so the same AST can be run breadth-first and, wrapped in `Dfs`, depth-first.
+
+#[derive(Clone, Debug)]
+pub struct SearchCfg {
+    pub nq: usize,
+    pub min_goals: usize,
+    pub max_goals: usize,
+    pub nesting: usize,
+    pub max_clauses: usize,
+    pub rels: bool,
+    pub recursive: bool,
+    pub matches: bool,
+    pub diseq: bool,
+}
+
+impl Default for SearchCfg {
+    fn default() -> SearchCfg {
+        SearchCfg { nq: 2, min_goals: 1, max_goals: 4, nesting: 3, max_clauses: 6, rels: true, recursive: true, matches: true, diseq: true }
+    }
+}
+
+pub struct SearchGen<'a> {
+    pub rng: &'a mut Rng,
+    pub cfg: SearchCfg,
+    pub next_var: V,
+    pub rels: Vec<RelDef>,
+}
+
+impl<'a> SearchGen<'a> {
+    pub fn new(rng: &'a mut Rng, cfg: SearchCfg) -> SearchGen<'a> {
+        SearchGen { rng, cfg, next_var: 0, rels: vec![] }
+    }
+    fn new_var(&mut self) -> V {
+        let v = self.next_var;
+        self.next_var += 1;
+        v
+    }
+    fn atom(&mut self) -> T {
+        let a = [T::Int(1), T::Int(2), T::Int(3), T::Char('a'), T::s("s")];
+        let k = if self.rng.chance(2, 3) { self.rng.below(3) } else { self.rng.below(a.len()) };
+        a[k].clone()
+    }
+    fn ground_list(&mut self, max: usize) -> T {
+        let n = self.rng.below(max + 1);
+        T::list((0..n).map(|_| self.atom()).collect())
+    }
+    fn var_or_atom(&mut self, scope: &[V]) -> T {
+        if !scope.is_empty() && self.rng.chance(2, 3) {
+            T::Var(*self.rng.pick(scope))
+        } else {
+            self.atom()
+        }
+    }
+    fn small_term(&mut self, scope: &[V]) -> T {
+        match self.rng.below(6) {
+            0 => {
+                let a = self.var_or_atom(scope);
+                let b = self.var_or_atom(scope);
+                T::list(vec![a, b])
+            }
+            1 => {
+                let a = self.var_or_atom(scope);
+                let b = self.var_or_atom(scope);
+                T::improper(vec![a], b)
+            }
+            _ => self.var_or_atom(scope),
+        }
+    }
+    /// Two fixed shapes of structurally recursive relations over a proper list, with random
+    /// constants: they terminate on every list of bounded length.
+    fn make_rel(&mut self) -> usize {
+        let k = self.rels.len();
+        let (l, out, h, t, o2) = (900 + 10 * k as V, 901 + 10 * k as V, 902 + 10 * k as V, 903 + 10 * k as V, 904 + 10 * k as V);
+        let body = if self.rng.chance(1, 2) {
+            // relk(l, out): out is an element of l, or the constant c when l is empty  (member-like, multi-answer)
+            let c = self.atom();
+            vec![G::Cond(vec![
+                vec![G::Eq(T::Var(l), T::Nil), G::Eq(T::Var(out), c)],
+                vec![G::Fresh(vec![h, t], vec![G::Eq(T::Var(l), T::cons(T::Var(h), T::Var(t))), G::Cond(vec![vec![G::Eq(T::Var(out), T::Var(h))], vec![G::RecCall(k, vec![T::Var(t), T::Var(out)])]])])],
+            ])]
+        } else {
+            // relk(l, out): out is l with every element paired with a constant (map-like, deterministic, builds structure)
+            let c = self.atom();
+            vec![G::Cond(vec![
+                vec![G::Eq(T::Var(l), T::Nil), G::Eq(T::Var(out), T::Nil)],
+                vec![G::Fresh(vec![h, t, o2], vec![G::Eq(T::Var(l), T::cons(T::Var(h), T::Var(t))), G::Eq(T::Var(out), T::cons(T::list(vec![T::Var(h), c]), T::Var(o2))), G::RecCall(k, vec![T::Var(t), T::Var(o2)])])],
+            ])]
+        };
+        self.rels.push(RelDef { params: vec![l, out], body });
+        k
+    }
+
+    pub fn goal(&mut self, scope: &mut Vec<V>, nesting: usize) -> G {
+        let r = self.rng.below(100);
+        if nesting > 0 && r < 26 {
+            let nc = 2 + self.rng.below(self.cfg.max_clauses - 1);
+            let mut cs = vec![];
+            for _ in 0..nc {
+                let c: Vec<G> = match self.rng.below(10) {
+                    0 => vec![G::Succeed],
+                    1 => vec![G::Fail],
+                    2 => vec![G::Succeed, G::Succeed],
+                    _ => {
+                        let ng = 1 + self.rng.below(2);
+                        (0..ng).map(|_| self.goal(scope, nesting - 1)).collect()
+                    }
+                };
+                cs.push(c);
+            }
+            return G::Cond(cs);
+        }
+        if nesting > 0 && r < 34 {
+            let ng = 1 + self.rng.below(3);
+            return G::Conj((0..ng).map(|_| self.goal(scope, nesting - 1)).collect());
+        }
+        if nesting > 0 && r < 44 {
+            let nv = 1 + self.rng.below(2);
+            let vs: Vec<V> = (0..nv).map(|_| self.new_var()).collect();
+            let mut inner = scope.clone();
+            inner.extend(vs.iter().copied());
+            let ng = 1 + self.rng.below(3);
+            let body: Vec<G> = (0..ng).map(|_| self.goal(&mut inner, nesting - 1)).collect();
+            return G::Fresh(vs, body);
+        }
+        if self.cfg.rels && r < 60 {
+            let x = self.var_or_atom(scope);
+            return match self.rng.below(5) {
+                0 | 1 => {
+                    let l = self.ground_list(4);
+                    G::Call(Rel::Member, vec![x, l])
+                }
+                2 => {
+                    // list with variable elements
+                    let n = 1 + self.rng.below(3);
+                    let l = T::list((0..n).map(|_| self.var_or_atom(scope)).collect());
+                    G::Call(Rel::Member, vec![x, l])
+                }
+                3 => {
+                    let y = self.var_or_atom(scope);
+                    let l = self.ground_list(3);
+                    G::Call(Rel::Append, vec![x, y, l])
+                }
+                _ => {
+                    let l = self.ground_list(3);
+                    let y = self.var_or_atom(scope);
+                    G::Call(Rel::Rember, vec![self.atom(), l, y])
+                }
+            };
+        }
+        if self.cfg.recursive && r < 67 {
+            let k = if self.rels.is_empty() || (self.rels.len() < 2 && self.rng.chance(1, 2)) { self.make_rel() } else { self.rng.below(self.rels.len()) };
+            let l = self.ground_list(3);
+            let out = if !scope.is_empty() { T::Var(*self.rng.pick(scope)) } else { self.atom() };
+            return G::RecCall(k, vec![l, out]);
+        }
+        if self.cfg.matches && nesting > 0 && r < 75 {
+            // match over a scrutinee with 2-3 arms; pattern variables are fresh numbers
+            let scrut = if self.rng.chance(2, 3) { self.var_or_atom(scope) } else { self.ground_list(2) };
+            let na = 2 + self.rng.below(2);
+            let mut arms = vec![];
+            for _ in 0..na {
+                let npat = 1 + self.rng.below(2);
+                let pv1 = self.new_var();
+                let pv2 = self.new_var();
+                let mut pats = vec![];
+                for _ in 0..npat {
+                    let p = match self.rng.below(6) {
+                        0 => T::Nil,
+                        1 => T::improper(vec![T::Var(pv1)], T::Var(pv2)),
+                        2 => T::list(vec![T::Var(pv1), T::Var(pv2)]),
+                        3 => T::improper(vec![T::Var(pv1)], T::Any),
+                        4 => self.atom(),
+                        _ => T::Var(pv1),
+                    };
+                    pats.push(p);
+                }
+                let mut inner = scope.clone();
+                // only variables that occur in EVERY alternative may be used by the body
+                let common: Vec<V> = [pv1, pv2].iter().copied().filter(|v| pats.iter().all(|p| p.vars().contains(v))).collect();
+                inner.extend(common);
+                let nb = self.rng.below(3);
+                let body: Vec<G> = (0..nb).map(|_| self.goal(&mut inner, nesting - 1)).collect();
+                arms.push(Arm { pats, body });
+            }
+            return G::Match(MatchKind::Match, scrut, arms);
+        }
+        if r < 79 {
+            return if self.rng.chance(2, 3) { G::Succeed } else { G::Fail };
+        }
+        let a = self.small_term(scope);
+        let b = self.small_term(scope);
+        if self.cfg.diseq && self.rng.chance(1, 5) {
+            G::Diseq(a, b)
+        } else if !scope.is_empty() && self.rng.chance(2, 3) {
+            G::Eq(T::Var(*self.rng.pick(scope)), b)
+        } else {
+            G::Eq(a, b)
+        }
+    }
+
+    pub fn program(&mut self) -> Program {
+        let qvars: Vec<V> = (0..self.cfg.nq).map(|_| self.new_var()).collect();
+        let mut scope = qvars.clone();
+        let n = self.cfg.min_goals + self.rng.below(self.cfg.max_goals - self.cfg.min_goals + 1);
+        let nesting = self.cfg.nesting;
+        let body: Vec<G> = (0..n).map(|_| self.goal(&mut scope, nesting)).collect();
+        Program { rels: self.rels.clone(), qvars, body }
+    }
+}
+
+/// Wrap the whole body in `dfs { ... }`.
+pub fn dfs_wrapped(p: &Program) -> Program {
+    Program { rels: p.rels.clone(), qvars: p.qvars.clone(), body: vec![G::Dfs(vec![p.body.clone()])] }
+}
